@@ -76,7 +76,7 @@ def worker(i):
                 r["checks"] = {}
                 for p in props:
                     t1 = time.time()
-                    rc, o = sh(f"./check {p} --tier quick", verif, timeout=3600)
+                    rc, o = sh(f"./check {p} --tier quick", verif, timeout=3600, env={"VERIF_NCPU": str(max(4, 20 // nworkers))})
                     viol = [l for l in o.splitlines() if l.startswith("VIOLATION") or l.startswith("KNOWN-FINDING")]
                     detail = [l for l in o.splitlines() if "  -> " in l][:2]
                     r["checks"][p] = {"exit": rc, "s": round(time.time() - t1), "violations": viol[:2], "detail": [x[:400] for x in detail],
